@@ -32,6 +32,14 @@ func (wu *writeUnit) cycle(ctx *risc.Context, inBus *comp.SimpleBus[risc.Executi
 		wu.pendingMemoryWrite = true
 		wu.cycles = latency.MemoryAccess
 		ctx.WriteMemory(execution.Execution)
+		released := make(map[int32]bool)
+		for addr := range execution.Execution.MemoryChanges {
+			line := addr - addr%l1DCacheLineSize
+			if !released[line] {
+				released[line] = true
+				ctx.DeletePendingWriteMemoryIntention(line, int(execution.SequenceID))
+			}
+		}
 	}
 }
 
